@@ -27,6 +27,7 @@ type State struct {
 	ok    *Term
 	ctl   int
 	ret   []Val
+	calls map[string][][]Val // results of the calls made so far on this path, by callee name (for origin())
 }
 
 func (s *State) clone() *State {
@@ -34,7 +35,20 @@ func (s *State) clone() *State {
 	for k, v := range s.store {
 		n.store[k] = v
 	}
+	if s.calls != nil {
+		n.calls = make(map[string][][]Val, len(s.calls))
+		for k, v := range s.calls {
+			n.calls[k] = append([][]Val{}, v...)
+		}
+	}
 	return n
+}
+
+func (s *State) recordCall(name string, results []Val) {
+	if s.calls == nil {
+		s.calls = map[string][][]Val{}
+	}
+	s.calls[name] = append(s.calls[name], results)
 }
 
 func (s *State) assume(t *Term) {
@@ -82,6 +96,7 @@ type Exec struct {
 	ghostCells map[string]*Cell // contract-visible ghost variables (e.g. `iter` of a range loop without key)
 	rootFields map[types.Object]map[string]bool
 	keepRootFields bool
+	nullableResults bool // pointer values created while this is set may be nil (results of calls)
 }
 
 func (ex *Exec) note(f string, a ...interface{}) {
@@ -213,6 +228,9 @@ func (ex *Exec) freshVal(st *State, k *Kind, hint string) Val {
 	case "ptr":
 		c := newCell("*" + hint)
 		st.store[c] = ex.freshVal(st, k.Elem, hint)
+		if ex.nullableResults {
+			return &RefV{Cell: c, NilT: Fresh(hint+".isnil", SBool)}
+		}
 		return &RefV{Cell: c}
 	case "tuple":
 		var vs []Val
@@ -250,6 +268,13 @@ func (ex *Exec) load(st *State, r *RefV, node ast.Node) Val {
 	if r.Nil {
 		ex.fail("nil-deref", ex.site("nil-deref"), "dereference of nil pointer", node)
 		panic(abortPath{})
+	}
+	if r.NilT != nil && node != nil {
+		g := Not(r.NilT)
+		if !g.IsTrue() {
+			ex.oblige(st, "nil-deref", ex.site("nil-deref"), g, node)
+			st.assume(g)
+		}
 	}
 	v, ok := st.store[r.Cell]
 	if !ok {
@@ -338,6 +363,13 @@ func (ex *Exec) storeRef(st *State, r *RefV, nv Val, node ast.Node) {
 	if r.Nil {
 		ex.fail("nil-deref", ex.site("nil-deref"), "store through nil pointer", node)
 		panic(abortPath{})
+	}
+	if r.NilT != nil {
+		g := Not(r.NilT)
+		if !g.IsTrue() {
+			ex.oblige(st, "nil-deref", ex.site("nil-deref"), g, node)
+			st.assume(g)
+		}
 	}
 	ex.frameCheck(r, false, node)
 	old := st.store[r.Cell]
@@ -1037,7 +1069,7 @@ func (ex *Exec) lvalue(st *State, e ast.Expr) *RefV {
 			xt := ex.info.TypeOf(n.X)
 			if _, isPtr := xt.Underlying().(*types.Pointer); isPtr {
 				p := ex.evalExpr(st, n.X).(*RefV)
-				return &RefV{Cell: p.Cell, Path: append(append([]Acc{}, p.Path...), Acc{Field: n.Sel.Name}), Nil: p.Nil}
+				return &RefV{Cell: p.Cell, Path: append(append([]Acc{}, p.Path...), Acc{Field: n.Sel.Name}), Nil: p.Nil, NilT: p.NilT}
 			}
 			b := ex.lvalue(st, n.X)
 			return &RefV{Cell: b.Cell, Path: append(append([]Acc{}, b.Path...), Acc{Field: n.Sel.Name}), Nil: b.Nil}
@@ -1158,6 +1190,21 @@ func (ex *Exec) mergeStates(c *Term, a, b *State, basePC int) *State {
 	}
 	if a.ok != nil {
 		m.ok = Ite(c, a.ok, b.ok)
+	}
+	for _, src := range []*State{a, b} {
+		for k, v := range src.calls {
+			for _, r := range v {
+				dup := false
+				for _, e := range m.calls[k] {
+					if len(e) > 0 && len(r) > 0 && sameVal(e[len(e)-1], r[len(r)-1]) && sameVal(e[0], r[0]) {
+						dup = true
+					}
+				}
+				if !dup {
+					m.recordCall(k, r)
+				}
+			}
+		}
 	}
 	return m
 }
@@ -1429,7 +1476,9 @@ func (ex *Exec) ghostAsserts(states []*State, anchor string, pos token.Pos, node
 			g := ce.evalBool(a.Expr)
 			ex.oblige(s, "assert", fmt.Sprintf("assert@%s#L%d.%d", anchor, a.Line, i+1), g, node)
 			ex.obls[len(ex.obls)-1].Note = a.Text
-			s.assume(g)
+			if !g.IsFalse() {
+				s.assume(g)
+			}
 		}
 	}
 }
